@@ -683,6 +683,13 @@ class ErrGen:
             if ch.bool(0.12):
                 fin.append(self.raiser())
                 self.features.add("finally-raises")
+            elif ch.bool(0.15):
+                # an exit statement in the finally part: specified only
+                # while an error is leaving the block (the error continues)
+                e = self.exit_stmt(in_loop, in_fn)
+                if e is not None:
+                    fin.append(e)
+                    self.features.add("finally-exits")
         return ("block", body, catches, fin)
 
     def block_stmt(self, depth, in_loop, in_fn):
@@ -1107,11 +1114,53 @@ class ScopeGen:
         self.features.add("T7")
         return out
 
+    # T8: a binding that appears later in an enclosing scope / only on some
+    # activations: lookups are by scope at the time of the lookup
+    def t8(self):
+        ch = self.ch
+        N = self.name()
+        out = [("def", N, ("str", "global"))]
+        k = ch.choice(["late-def", "conditional-local", "recursive-local"])
+        if k == "late-def":
+            outer, rd = self.fresh("lt"), self.fresh("rd")
+            out.append(("deffn", outer, [], fnblock([
+                ("def", rd, ("fn", [], ("bin", "+", V(N), ("str", "")))),
+                ("def", "r_before", call(rd)),
+                ("def", N, ("str", "local")),
+                ("def", "r_after", call(rd)),
+                ("expr", ("list", [V("r_before"), V("r_after"), call(rd)]))])))
+            out.append(tag_log(self.tag(), call(outer), V(N)))
+        elif k == "conditional-local":
+            f = self.fresh("cd")
+            out.append(("deffn", f, [("flag", None, False)], fnblock([
+                ("if", [(V("flag"), [("def", N, ("str", "local"))])], None),
+                ("expr", ("bin", "+", V(N), ("str", "")))])))
+            seq = [("call", V(f), [("pos", ("bool", ch.bool()))])
+                   for _ in range(ch.int(3, 5))]
+            out.append(tag_log(self.tag(), ("list", seq)))
+        else:
+            f = self.fresh("rl")
+            # the local exists only on even activations
+            out.append(("deffn", f, [("n", None, False)], fnblock([
+                ("if", [(("cmp", [("bin", "%", V("n"), I(2)), I(0)], ["=="]),
+                         [("def", N, ("bin", "+", ("str", "L"), V("n")))])],
+                 None),
+                ("def", "here", ("bin", "+", V(N), ("str", ""))),
+                ("if", [(("cmp", [V("n"), I(0)], [">"]),
+                         [("return", ("bin", "+", ("list", [V("here")]),
+                                      ("call", V(f), [("pos", ("bin", "-", V("n"), I(1)))])))])],
+                 None),
+                ("expr", ("list", [V("here")]))])))
+            out.append(tag_log(self.tag(),
+                               ("call", V(f), [("pos", I(ch.int(2, 5)))])))
+        self.features.add("T8")
+        return out
+
     def program(self):
         ch = self.ch
         stmts = [("def", "trace", ("list", []))]
         frags = [self.t1, self.t2, self.t3, self.t4, self.t5, self.t6,
-                 self.t7]
+                 self.t7, self.t8]
         for _ in range(ch.int(2, 4)):
             fr = ch.choice(frags)()
             levels = ch.weighted([(4, 0), (3, 1), (2, 2), (1, 3)])
